@@ -127,9 +127,9 @@ def memory_groups():
     g('wp_reset.empty', ['C05'], 'h_wp_reset', 'cstl_weak_ptr_reset', 'weak reset of an empty pointer is a no-op', defines=['-DVF_SP_EMPTY'])
     g('share.into_empty', ['C05'], 'h_share', 'cstl_shared_ptr_share', 'share into an empty pointer: hard+1, soft+1, same memory', defines=['-DVF_SHARE_INTO_EMPTY'])
     g('share.empty_src', ['C05'], 'h_share', 'cstl_shared_ptr_share', 'share an empty pointer into an owner: the owner lets go as by reset', defines=['-DVF_SHARE_EMPTY_SRC'], solver='kissat')
-    g('share.occupied', ['C05'], 'h_share', 'cstl_shared_ptr_share', 'share into a pointer that owns another allocation: that allocation is let go exactly as by reset (destroyed iff last owner), then hard+1/soft+1 on the shared one', defines=['-DVF_SHARE_OCCUPIED'], timeout=900)
+    g('share.occupied', ['C05'], 'h_share', 'cstl_shared_ptr_share', 'share into a pointer that owns another allocation: that allocation is let go exactly as by reset (destroyed iff last owner), then hard+1/soft+1 on the shared one', defines=['-DVF_SHARE_OCCUPIED'], timeout=900, solver='kissat')
     g('weak_from.occupied', ['C05'], 'h_weak_from', 'cstl_weak_ptr_from', 'weak-from onto a weak pointer that refers to another allocation: that one loses exactly one weak reference (never an owner; memory untouched), then soft+1', defines=['-DVF_WEAK_FROM_OCCUPIED'], timeout=900)
-    g('lock.occupied', ['C05'], 'h_lock', 'cstl_weak_ptr_lock', 'lock into a pointer that owns another allocation: that one is let go as by reset, then an owner iff an owner still exists', defines=['-DVF_LOCK_OCCUPIED'], unwind=2, timeout=900)
+    g('lock.occupied', ['C05'], 'h_lock', 'cstl_weak_ptr_lock', 'lock into a pointer that owns another allocation: that one is let go as by reset, then an owner iff an owner still exists', defines=['-DVF_LOCK_OCCUPIED'], unwind=2, timeout=900, solver='kissat')
     g('weak_from', ['C05'], 'h_weak_from', 'cstl_weak_ptr_from', 'weak-from: soft+1 only', defines=['-DVF_WEAK_FROM'])
     g('lock', ['C05'], 'h_lock', 'cstl_weak_ptr_lock', 'lock into an empty pointer: an owner iff hard >= 1 (then hard+1/soft+1), else counters restored; lock flag clear again', defines=['-DVF_LOCK'], unwind=2)
     g('lock.empty_wp', ['C05'], 'h_lock', 'cstl_weak_ptr_lock', 'lock of an empty weak pointer into an owner: the owner lets go as by reset', defines=['-DVF_LOCK_EMPTY_WP'], unwind=2, solver='kissat')
@@ -270,7 +270,7 @@ def rawarray_groups():
         if esz in (1, 4):
             # (the 4-byte instance takes 5 minutes with kissat and did not finish with minisat: thorough tier)
             g('reverse', 'h_reverse', 'cstl_raw_array_reverse', 'reverse exactly mirrors the order for every count; writes only the array and the scratch element',
-              tier=('quick' if esz == 1 else 'thorough'), timeout=1200, solver=('sat' if esz == 1 else 'kissat'))
+              tier=('quick' if esz == 1 else 'thorough'), timeout=1200, solver='kissat')
         g('search_arith', 'h_search_arith', 'cstl_raw_array_search', 'binary search: for arbitrary comparison outcomes all probes stay inside the array, indices never overflow, result in [-1,count)')
         g('search_func', 'h_search_func', 'cstl_raw_array_search',
           'binary search on a sorted array, every count: sortedness seen from the probe as zone boundaries lo <= hi (greater / equal / smaller); returns an index inside [lo,hi) iff lo < hi, else -1',
